@@ -12,15 +12,61 @@
     [Fail kind].  [decode] (the body decoders) is arbitrary.
       [serve_decision fx], [serve_proxy fx], [serve_envoy fx]  = error kind | matched rule + hand-over of
     the three entry points.  [fx : fixes] says which recorded findings are repaired in the modelled tree
-    (one flag per finding with a repair: F1 = fix: b2286d8; F2, F3, F4, F6, F7 = candidates
-    fixes/C13-Fx.diff).  [pinned] = none, [repo_now] = F1 only (/repo today), [all_fixed] = all.  Every
-    theorem holds for every [fx]; the guard of a repaired finding is switched off.
+    (one flag per finding with a repair: F1 = fix: b2286d8, F2 = 7c3e9fc, F3 = a5ef279, F4 = ae6db4f,
+    F6 = 06faa19, F7 = 19923cd).  [pinned] = none, [repo_now] = [all_fixed] = all of them (/repo today).
+    Every theorem holds for every [fx]; the guard of a repaired finding is switched off, so for
+    [repo_now] only C13-F5 (cookies), C13-F8 (Headers() as a whole) and C13-F3b (blanks around the values
+    of a header that is added twice) guard anything.  The pinned behaviour of each repaired finding is
+    kept as a [..._pinned_refuted] witness.
 
     [wf_lreqb L]: header names are tokens, no Host / X-Forwarded-* / Forwarded line (C09), values
     without surrounding blanks, at most one Cookie line, a path that starts with "/" and is validly
-    encoded.  [guards_fire fx L]: one of the findings C13-F1..F8 that is open in [fx] applies to a read
+    encoded.  [guards_fire fx L]: one of the findings that is open in [fx] applies to a read
     the pipeline makes on L, to the encoded-slash check or to what it hands over (see C13/Proofs.v). *)
 From HV Require Import Base.Prelude Base.GoUrl C09.Model C13.Model C13.Proofs.
+
+(** ------------------------------------------------------------------ the tree as it is (/repo, abe584c) *)
+
+(** the property: same decision, same matched rule, same hand-over at all three entry points.
+    [guards_fire ... repo_now] only looks at cookies (F5), Headers() (F8) and blank-padded values of a
+    header added twice (F3b) — see [C13_repo_guards], [C13_repo_guards_fire]. *)
+Theorem C13_three_entry_points_agree_repo : forall decode find L,
+  wf_lreqb L = true -> guards_fire decode find repo_now L = false ->
+  serve_decision decode find repo_now L = serve_proxy decode find repo_now L /\
+  serve_decision decode find repo_now L = serve_envoy decode find repo_now L.
+Proof. intros decode find L. exact (three_entry_points_agree decode find repo_now L). Qed.
+Print Assumptions C13_three_entry_points_agree_repo.
+
+(** the guards that are left in the repaired tree: per read of the view ... *)
+Theorem C13_repo_guards : forall decode s caps L q,
+  guard_query decode repo_now s caps L q = g_F5_query L q || g_F8_query q.
+Proof. exact all_fixed_guards. Qed.
+Print Assumptions C13_repo_guards.
+
+(** ... and per request: no guard for captures, header names, Host, URL parts, the encoded-slash
+    check, the body *)
+Theorem C13_repo_guards_fire : forall decode find L,
+  guards_fire decode find repo_now L =
+  match find (lookup_of (build_http L)) with
+  | None => false
+  | Some (rl, caps) =>
+    let ans := answer (acc_http decode L) (http_mech L (r_slashes rl) caps) in
+    existsb (fun q => g_F5_query L q || g_F8_query q) (trace ans (r_prog rl)) ||
+    g_F3_adds true (snd (run_prog ans (r_prog rl))) || g_F5_adds (snd (run_prog ans (r_prog rl)))
+  end.
+Proof. exact repo_guards_fire. Qed.
+Print Assumptions C13_repo_guards_fire.
+
+(** the encoded-slash check rejects at all entry points alike *)
+Theorem C13_slash_check_agrees_repo : forall find L rl caps,
+  wf_lreqb L = true -> find (lookup_of (build_http L)) = Some (rl, caps) ->
+  g_F4_decision (r_slashes rl) L = true ->
+  mech_view find true (build_http L) = inl EArgument /\
+  mech_view find (fx_F1 repo_now) (build_envoy (fx_F4 repo_now) (mk_envoy L)) = inl EArgument.
+Proof. intros find L rl caps. exact (slash_check_agrees find true L rl caps). Qed.
+Print Assumptions C13_slash_check_agrees_repo.
+
+(** ------------------------------------------------------------------ every tree (any subset of the repairs) *)
 
 (** rule lookup reads the same path, method, scheme and host at all entry points: the same rule
     matches and the same values are captured, for every lookup function *)
@@ -52,51 +98,21 @@ Proof. exact same_execution. Qed.
 Print Assumptions C13_same_decision.
 
 (** same hand-over: for every list of pipeline headers and cookies the three Finalize hand the same
-    header values and cookie values over, unless a header name was added twice (F3, pinned code only)
-    or net/http rewrites a cookie (F5) *)
+    header values and cookie values over, unless a header name was added twice (pinned Finalize: always
+    a difference, F3; repaired: only with blanks around a value, F3b) or net/http rewrites a cookie (F5) *)
 Theorem C13_same_upstream_headers : forall fixed_F3 adds,
-  negb fixed_F3 && g_F3_adds adds = false -> g_F5_adds adds = false ->
+  g_F3_adds fixed_F3 adds = false -> g_F5_adds adds = false ->
   finalize_decision fixed_F3 adds = finalize_proxy fixed_F3 adds /\
   finalize_decision fixed_F3 adds = finalize_envoy adds.
 Proof. exact same_upstream. Qed.
 Print Assumptions C13_same_upstream_headers.
 
-(** the property: same decision, same matched rule, same hand-over at all three entry points *)
 Theorem C13_three_entry_points_agree : forall decode find fx L,
   wf_lreqb L = true -> guards_fire decode find fx L = false ->
   serve_decision decode find fx L = serve_proxy decode find fx L /\
   serve_decision decode find fx L = serve_envoy decode find fx L.
 Proof. exact three_entry_points_agree. Qed.
 Print Assumptions C13_three_entry_points_agree.
-
-(** the tree as it is since fix: b2286d8 (C13-F1 repaired, the others open): the property with the
-    remaining guards only — captures are not guarded any more *)
-Theorem C13_current_tree_agree : forall decode find L,
-  wf_lreqb L = true -> guards_fire decode find repo_now L = false ->
-  serve_decision decode find repo_now L = serve_proxy decode find repo_now L /\
-  serve_decision decode find repo_now L = serve_envoy decode find repo_now L.
-Proof. intros decode find L. exact (three_entry_points_agree decode find repo_now L). Qed.
-Print Assumptions C13_current_tree_agree.
-
-Theorem C13_current_tree_captures_unguarded : forall decode s caps L n,
-  guard_query decode repo_now s caps L (QCapture n) = false /\ guard_query decode repo_now s caps L QCaptures = false.
-Proof. intros. split; reflexivity. Qed.
-Print Assumptions C13_current_tree_captures_unguarded.
-
-(** with every candidate repair applied only the cookie findings (C13-F5) and Headers() as a whole
-    (C13-F8) remain guarded, and the encoded-slash check rejects at all entry points alike *)
-Theorem C13_all_fixed_guards : forall decode s caps L q,
-  guard_query decode all_fixed s caps L q = g_F5_query L q || g_F8_query q.
-Proof. exact all_fixed_guards. Qed.
-Print Assumptions C13_all_fixed_guards.
-
-Theorem C13_fixed_F4_slash_check_agrees : forall find fixed_F1 L rl caps,
-  wf_lreqb L = true -> find (lookup_of (build_http L)) = Some (rl, caps) ->
-  g_F4_decision (r_slashes rl) L = true ->
-  mech_view find true (build_http L) = inl EArgument /\
-  mech_view find fixed_F1 (build_envoy true (mk_envoy L)) = inl EArgument.
-Proof. exact slash_check_agrees. Qed.
-Print Assumptions C13_fixed_F4_slash_check_agrees.
 
 (** the decision and the proxy service share requestcontext.RequestContext: no guard at all *)
 Theorem C13_decision_proxy_same_execution : forall decode find fx L,
@@ -116,7 +132,15 @@ Theorem C13_header_lookup_agrees : forall L k,
 Proof. exact header_map_agree. Qed.
 Print Assumptions C13_header_lookup_agrees.
 
-(** ... and Header(n) for ANY name n, under the guards of F2 and F6 as far as they are open *)
+(** ... and Header(n) for ANY name n in the repaired tree (no guard), in any tree under the guards of
+    F2 and F6 as far as they are open *)
+Theorem C13_header_accessors_agree_repo : forall L n,
+  wf_lreqb L = true ->
+  header_http (http_hdrs L) (l_host L) n =
+  header_envoy repo_now (canonicalize_headers (envoy_wire_hdrs L)) (l_host L) n.
+Proof. intros L n W. apply (header_agree repo_now L n W); reflexivity. Qed.
+Print Assumptions C13_header_accessors_agree_repo.
+
 Theorem C13_header_accessors_agree : forall fx L n,
   wf_lreqb L = true ->
   negb (fx_F2 fx) && g_F2_query (fx_F6 fx) L (QHeader n) = false ->
@@ -134,116 +158,132 @@ Theorem C13_cookie_readers_agree : forall n line,
 Proof. exact cookie_line_agree. Qed.
 Print Assumptions C13_cookie_readers_agree.
 
-(** the findings: each guard is needed (a well-formed request on which it fires and the entry points
-    differ), and the (candidate) repair removes the difference on the same request.
-    C13-F1 is repaired (fix: b2286d8); its witness documents the pinned context. *)
+(** ------------------------------------------------------------------ the repaired findings, documented.
+    [tree_Fi] = the repaired tree without the repair of C13-Fi.  Each witness: a well-formed request on
+    which the guard fires and the entry points differ in [tree_Fi], and agree in [repo_now]. *)
 Theorem C13_F1_pinned_refuted :
   wf_lreqb w1_req = true /\
-  guards_fire w_decode w1_find pinned w1_req = true /\
+  guards_fire w_decode w1_find tree_F1 w1_req = true /\
   guards_fire w_decode w1_find repo_now w1_req = false /\
-  serve_decision w_decode w1_find pinned w1_req <> serve_envoy w_decode w1_find pinned w1_req /\
-  serve_decision w_decode w1_find repo_now w1_req = serve_envoy w_decode w1_find repo_now w1_req.
+  serve_decision w_decode w1_find tree_F1 w1_req <> serve_envoy w_decode w1_find tree_F1 w1_req /\
+  serve_decision w_decode w1_find repo_now w1_req = serve_envoy w_decode w1_find repo_now w1_req /\
+  serve_decision w_decode w1_find pinned w1_req <> serve_envoy w_decode w1_find pinned w1_req.
 Proof. exact F1_refuted. Qed.
 Print Assumptions C13_F1_pinned_refuted.
 
 Theorem C13_F1_pinned_refuted_decision :
-  s_err (serve_decision w_decode w1b_find pinned (w_req "GET" "/c1/admin" [] "")) = None /\
-  s_err (serve_envoy w_decode w1b_find pinned (w_req "GET" "/c1/admin" [] "")) = Some EInternal /\
+  s_err (serve_decision w_decode w1b_find tree_F1 (w_req "GET" "/c1/admin" [] "")) = None /\
+  s_err (serve_envoy w_decode w1b_find tree_F1 (w_req "GET" "/c1/admin" [] "")) = Some EInternal /\
   s_err (serve_envoy w_decode w1b_find repo_now (w_req "GET" "/c1/admin" [] "")) = None.
 Proof. exact F1_refuted_decision. Qed.
 Print Assumptions C13_F1_pinned_refuted_decision.
 
-Theorem C13_F2_refuted :
-  wf_lreqb w2_req = true /\ guards_fire w_decode w2_find repo_now w2_req = true /\
-  existsb (g_F2_query false w2_req) [QHeader "x-role"] = true /\
-  s_err (serve_decision w_decode w2_find repo_now w2_req) = None /\
-  s_err (serve_envoy w_decode w2_find repo_now w2_req) = Some EAuthz /\
-  guards_fire w_decode w2_find (set_F2 true repo_now) w2_req = false /\
-  s_err (serve_envoy w_decode w2_find (set_F2 true repo_now) w2_req) = None.
+Theorem C13_F2_pinned_refuted :
+  wf_lreqb w2_req = true /\ guards_fire w_decode w2_find tree_F2 w2_req = true /\
+  existsb (g_F2_query true w2_req) [QHeader "x-role"] = true /\
+  s_err (serve_decision w_decode w2_find tree_F2 w2_req) = None /\
+  s_err (serve_envoy w_decode w2_find tree_F2 w2_req) = Some EAuthz /\
+  guards_fire w_decode w2_find repo_now w2_req = false /\
+  s_err (serve_envoy w_decode w2_find repo_now w2_req) = None.
 Proof. exact F2_refuted. Qed.
-Print Assumptions C13_F2_refuted.
+Print Assumptions C13_F2_pinned_refuted.
 
-Theorem C13_F3_refuted :
+Theorem C13_F3_pinned_refuted :
   let adds := [AddHeader "X-Out" "one"; AddHeader "x-out" "two"] in
-  g_F3_adds adds = true /\ g_F5_adds adds = false /\
+  g_F3_adds false adds = true /\ g_F3_adds true adds = false /\ g_F5_adds adds = false /\
   finalize_decision false adds = finalize_proxy false adds /\
   ho_headers (finalize_decision false adds) = [("X-Out", "one")]%string /\
   ho_headers (finalize_envoy adds) = [("X-Out", "one,two")]%string /\
   finalize_decision true adds = finalize_envoy adds /\ finalize_proxy true adds = finalize_envoy adds.
 Proof. exact F3_refuted. Qed.
-Print Assumptions C13_F3_refuted.
+Print Assumptions C13_F3_pinned_refuted.
 
-Theorem C13_F4_refuted :
-  wf_lreqb w4_req = true /\ g_F4_decision SOff w4_req = true /\ guards_fire w_decode w4_find repo_now w4_req = true /\
-  s_err (serve_decision w_decode w4_find repo_now w4_req) = Some EArgument /\
-  s_err (serve_envoy w_decode w4_find repo_now w4_req) = None /\
-  s_err (serve_envoy w_decode w4_find (set_F4 true repo_now) w4_req) = Some EArgument.
+Theorem C13_F4_pinned_refuted :
+  wf_lreqb w4_req = true /\ g_F4_decision SOff w4_req = true /\ guards_fire w_decode w4_find tree_F4 w4_req = true /\
+  s_err (serve_decision w_decode w4_find tree_F4 w4_req) = Some EArgument /\
+  s_err (serve_envoy w_decode w4_find tree_F4 w4_req) = None /\
+  guards_fire w_decode w4_find repo_now w4_req = false /\
+  s_err (serve_envoy w_decode w4_find repo_now w4_req) = Some EArgument.
 Proof. exact F4_refuted. Qed.
-Print Assumptions C13_F4_refuted.
+Print Assumptions C13_F4_pinned_refuted.
 
-Theorem C13_F4_refuted_view :
+Theorem C13_F4_pinned_refuted_view :
   wf_lreqb w4b_req = true /\ g_F4_query SOff w4b_req QPath = true /\
-  s_handover (serve_decision w_decode w4b_find repo_now w4b_req) = Some {| ho_headers := [("X-Path", "/c4/a b")]%string; ho_cookies := [] |} /\
-  s_handover (serve_envoy w_decode w4b_find repo_now w4b_req) = Some {| ho_headers := [("X-Path", "/c4/a%20b")]%string; ho_cookies := [] |} /\
-  s_handover (serve_envoy w_decode w4b_find (set_F4 true repo_now) w4b_req) = Some {| ho_headers := [("X-Path", "/c4/a b")]%string; ho_cookies := [] |}.
+  s_handover (serve_decision w_decode w4b_find tree_F4 w4b_req) = Some {| ho_headers := [("X-Path", "/c4/a b")]%string; ho_cookies := [] |} /\
+  s_handover (serve_envoy w_decode w4b_find tree_F4 w4b_req) = Some {| ho_headers := [("X-Path", "/c4/a%20b")]%string; ho_cookies := [] |} /\
+  guards_fire w_decode w4b_find repo_now w4b_req = false /\
+  s_handover (serve_envoy w_decode w4b_find repo_now w4b_req) = Some {| ho_headers := [("X-Path", "/c4/a b")]%string; ho_cookies := [] |}.
 Proof. exact F4_refuted_view. Qed.
-Print Assumptions C13_F4_refuted_view.
+Print Assumptions C13_F4_pinned_refuted_view.
+
+Theorem C13_F6_pinned_refuted :
+  wf_lreqb w6_req = true /\ g_F6_query (QHeader "Host") = true /\ guards_fire w_decode w6_find tree_F6 w6_req = true /\
+  s_err (serve_decision w_decode w6_find tree_F6 w6_req) = None /\
+  s_err (serve_envoy w_decode w6_find tree_F6 w6_req) = Some EAuthz /\
+  guards_fire w_decode w6_find repo_now w6_req = false /\
+  s_err (serve_envoy w_decode w6_find repo_now w6_req) = None.
+Proof. exact F6_refuted. Qed.
+Print Assumptions C13_F6_pinned_refuted.
+
+Theorem C13_F7_pinned_refuted :
+  wf_lreqb w7_req = true /\ g_F7_query w_decode w7_req QBody = true /\ guards_fire w_decode w7_find tree_F7 w7_req = true /\
+  serve_decision w_decode w7_find tree_F7 w7_req <> serve_envoy w_decode w7_find tree_F7 w7_req /\
+  guards_fire w_decode w7_find repo_now w7_req = false /\
+  serve_decision w_decode w7_find repo_now w7_req = serve_envoy w_decode w7_find repo_now w7_req.
+Proof. exact F7_refuted. Qed.
+Print Assumptions C13_F7_pinned_refuted.
+
+(** ------------------------------------------------------------------ the open findings: each guard is needed *)
+Theorem C13_F3b_refuted :
+  let adds := [AddHeader "X-Out" " a "; AddHeader "X-Out" "b"] in
+  g_F3_adds true adds = true /\
+  ho_headers (finalize_decision true adds) = [("X-Out", "a,b")]%string /\
+  ho_headers (finalize_envoy adds) = [("X-Out", "a ,b")]%string.
+Proof. exact F3_refuted_blanks. Qed.
+Print Assumptions C13_F3b_refuted.
 
 Theorem C13_F5_refuted :
   wf_lreqb w5_req = true /\ g_F5_query w5_req (QCookie "sid") = true /\
-  guards_fire w_decode w5_find all_fixed w5_req = true /\
-  s_err (serve_decision w_decode w5_find all_fixed w5_req) = None /\
-  s_err (serve_envoy w_decode w5_find all_fixed w5_req) = Some EAuthz /\
+  guards_fire w_decode w5_find repo_now w5_req = true /\
+  s_err (serve_decision w_decode w5_find repo_now w5_req) = None /\
   s_err (serve_envoy w_decode w5_find repo_now w5_req) = Some EAuthz.
 Proof. exact F5_refuted. Qed.
 Print Assumptions C13_F5_refuted.
 
 Theorem C13_F5_refuted_handover : forall fixed3,
   let adds := [AddCookie "pc1" "v 1"] in
-  g_F5_adds adds = true /\ g_F3_adds adds = false /\
+  g_F5_adds adds = true /\ g_F3_adds fixed3 adds = false /\
   finalize_decision fixed3 adds = finalize_proxy fixed3 adds /\
   finalize_decision fixed3 adds <> finalize_envoy adds.
 Proof. exact F5_refuted_handover. Qed.
 Print Assumptions C13_F5_refuted_handover.
 
-Theorem C13_F6_refuted :
-  wf_lreqb w6_req = true /\ g_F6_query (QHeader "Host") = true /\ guards_fire w_decode w6_find repo_now w6_req = true /\
-  s_err (serve_decision w_decode w6_find repo_now w6_req) = None /\
-  s_err (serve_envoy w_decode w6_find repo_now w6_req) = Some EAuthz /\
-  guards_fire w_decode w6_find (set_F6 true repo_now) w6_req = false /\
-  s_err (serve_envoy w_decode w6_find (set_F6 true repo_now) w6_req) = None.
-Proof. exact F6_refuted. Qed.
-Print Assumptions C13_F6_refuted.
-
-Theorem C13_F7_refuted :
-  wf_lreqb w7_req = true /\ g_F7_query w_decode w7_req QBody = true /\ guards_fire w_decode w7_find repo_now w7_req = true /\
-  serve_decision w_decode w7_find repo_now w7_req <> serve_envoy w_decode w7_find repo_now w7_req /\
-  serve_decision w_decode w7_find repo_now w7_req = serve_envoy w_decode w7_find (set_F7 true repo_now) w7_req.
-Proof. exact F7_refuted. Qed.
-Print Assumptions C13_F7_refuted.
-
 Theorem C13_F8_refuted :
-  g_F8_query QHeaders = true /\ guards_fire w_decode w8_find all_fixed w6_req = true /\
-  s_handover (serve_decision w_decode w8_find all_fixed w6_req) = Some {| ho_headers := [("X-Host", "a.example.com")]%string; ho_cookies := [] |} /\
-  s_handover (serve_envoy w_decode w8_find all_fixed w6_req) = Some {| ho_headers := [("X-Host", "")]%string; ho_cookies := [] |}.
+  g_F8_query QHeaders = true /\ guards_fire w_decode w8_find repo_now w6_req = true /\
+  s_handover (serve_decision w_decode w8_find repo_now w6_req) = Some {| ho_headers := [("X-Host", "a.example.com")]%string; ho_cookies := [] |} /\
+  s_handover (serve_envoy w_decode w8_find repo_now w6_req) = Some {| ho_headers := [("X-Host", "")]%string; ho_cookies := [] |}.
 Proof. exact F8_refuted. Qed.
 Print Assumptions C13_F8_refuted.
 
-(** the hypotheses of the main theorem are satisfiable by a non-trivial request and pipeline *)
+(** ------------------------------------------------------------------ non-vacuity *)
+(** the hypotheses of the main theorem for the repaired tree are satisfied by a request with an escaped
+    path with an encoded slash, headers in odd casing read through a lower-case name, the Host header, a
+    cookie and a JSON body through a rule with allow_encoded_slashes: on whose pipeline reads a capture,
+    headers, a cookie and URL parts and sets a header twice; in the pinned tree a guard fires on it *)
 Theorem C13_nonvacuous :
   wf_lreqb nv_req = true /\ guards_fire w_decode nv_find repo_now nv_req = false /\
-  guards_fire w_decode nv_find all_fixed nv_req = false /\
+  guards_fire w_decode nv_find pinned nv_req = true /\
   serve_envoy w_decode nv_find repo_now nv_req =
     {| s_err := None; s_rule := "files";
-       s_handover := Some {| ho_headers := [("X-User", "report.pdf"); ("X-Path", "/files/report.pdf");
-                                            ("X-Url", "https://a.example.com:8443/files/report.pdf?v=2")]%string;
+       s_handover := Some {| ho_headers := [("X-User", "2024/report.pdf,a.example.com:8443"); ("X-Path", "/files/2024/report.pdf");
+                                            ("X-Url", "https://a.example.com:8443/files/2024/report.pdf?v=2")]%string;
                              ho_cookies := [("session", "dark")]%string |} |}.
 Proof. exact nonvacuous. Qed.
 Print Assumptions C13_nonvacuous.
 
 Theorem C13_nonvacuous_pinned :
-  guards_fire w_decode nv2_find pinned nv_req = false /\
-  s_handover (serve_envoy w_decode nv2_find pinned nv_req) =
+  guards_fire w_decode nv2_find pinned nv2_req = false /\
+  s_handover (serve_envoy w_decode nv2_find pinned nv2_req) =
     Some {| ho_headers := [("X-Q", "v=2")]%string; ho_cookies := [("c", "application/json")]%string |}.
 Proof. exact nonvacuous_pinned. Qed.
 Print Assumptions C13_nonvacuous_pinned.
